@@ -105,3 +105,75 @@ def cell_opaque(model):
                         return Atom(name, args, 'int' if name.endswith('to_index') else 'str')
                     out[(m.name, name)] = summ
     return out
+
+
+# ---------------------------------------------------------------------------------------------------
+# linear forms: bounds implied by the decisions of a trace
+
+def box_of(notes):
+    """{var: [lo, lo_strict, hi, hi_strict, excluded set]} from the single-variable affine decisions of a trace, and
+    whether the trace also carries decisions in several variables (which the box ignores)."""
+    from fractions import Fraction
+    from .absint import AffCmp
+    box = {}
+    multi = False
+    for (t, alt, s) in notes:
+        if not isinstance(s, AffCmp):
+            continue
+        if len(s.coeffs) != 1:
+            multi = True
+            continue
+        v = list(s.coeffs)[0]
+        a, b = s.coeffs[v], s.const
+        c = -b / a
+        op = s.op
+        if not alt:
+            op = {'lt': 'ge', 'le': 'gt', 'gt': 'le', 'ge': 'lt', 'eq': 'ne', 'ne': 'eq'}[op]
+        if a < 0:
+            op = {'lt': 'gt', 'le': 'ge', 'gt': 'lt', 'ge': 'le', 'eq': 'eq', 'ne': 'ne'}[op]
+        e = box.setdefault(v, [None, False, None, False, set()])
+        if op in ('gt', 'ge', 'eq'):
+            strict = op == 'gt'
+            if e[0] is None or c > e[0] or (c == e[0] and strict):
+                e[0], e[1] = c, strict
+        if op in ('lt', 'le', 'eq'):
+            strict = op == 'lt'
+            if e[2] is None or c < e[2] or (c == e[2] and strict):
+                e[2], e[3] = c, strict
+        if op == 'ne':
+            e[4].add(c)
+    return box, multi
+
+
+def int_min(aff, box, implicit_nonneg=('len(',)):
+    """Smallest value the linear form can take over the *integer* points of the box (None = unbounded below)."""
+    import math
+    from fractions import Fraction
+    total = aff.const
+    for v, c in aff.coeffs.items():
+        e = box.get(v, [None, False, None, False, set()])
+        lo, los, hi, his, excl = e
+        if lo is None and any(v.startswith(p) for p in implicit_nonneg):
+            lo, los = Fraction(0), False
+        if c > 0:
+            if lo is None:
+                return None
+            m = math.floor(lo) + 1 if (los and lo == math.floor(lo)) else math.ceil(lo)
+            while Fraction(m) in excl:
+                m += 1
+            total += c * m
+        else:
+            if hi is None:
+                return None
+            m = math.ceil(hi) - 1 if (his and hi == math.ceil(hi)) else math.floor(hi)
+            while Fraction(m) in excl:
+                m -= 1
+            total += c * m
+    return total
+
+
+def int_max(aff, box):
+    from .absint import Aff
+    neg = Aff(dict((v, -c) for v, c in aff.coeffs.items()), -aff.const, aff.kind)
+    m = int_min(neg, box, implicit_nonneg=())
+    return None if m is None else -m
